@@ -1,6 +1,7 @@
 SPECIFICATION SSpec
 CONSTANTS
   Pairs = TRUE
+  SampleOneIn = 25
   Wide = TRUE
 INVARIANTS Emit
 CHECK_DEADLOCK FALSE
